@@ -25,7 +25,9 @@ CLAIM = {
             "(with C12); (R8.3) unchecked_sign_onchain_tx is called only after a successful check_onchain_tx / approved "
             "handle_proposed_onchain, which turns every error kind other than UnknownDestinations into Err; (R8.4) "
             "Wallet::can_spend refuses an empty path and compares with the three derived script types; (R8.5) the feerate "
-            "compared with max_feerate_per_kw was not narrowed by a truncating integer cast. Does not decide "
+            "compared with max_feerate_per_kw was not narrowed by a truncating integer cast; (R8.6) the segwit flags the "
+            "funding clause consumes are one per input and `true` only for an output proven by the streamed previous "
+            "transaction (StreamedPSBT decoder, same obligations as C19 R19.4). Does not decide "
             "the arithmetic inequality over arbitrary amounts.",
     "note": "non-permissive policy; is_tx_non_malleable / estimate_feerate_per_kw / Address::* trusted by name",
     "technique": "static analysis: loop-iteration path rules (at-most-once credit, credit-or-unknown) + must-pass-through + guard scenarios",
@@ -40,6 +42,7 @@ def run(ctx):
     r83(ctx)
     r84(ctx)
     r85(ctx)
+    r86(ctx)
 
 
 def _updates(fv, b, var):
@@ -364,3 +367,11 @@ def r85(ctx):
         b = p.fn(fn)
         n += R.bound_comparisons_untruncated(ctx, "R8.5", b, lambda s: "SimplePolicy." in s or "policy." in s, b.name)
     ctx.floor("R8.5", "comparisons with max_feerate_per_kw in validate_beneficial_value", n, 1)
+
+
+def r86(ctx):
+    """the per-input segwit flags that the funding clause ("only if all inputs are segwit") consumes are computed by the
+    StreamedPSBT decoder: one flag per input, `true` only for an output *proven* by the streamed previous transaction
+    (same obligations as C19 R19.4, evaluated here because the C08 clause depends on them)"""
+    from rules import C19 as _c19
+    _c19.r194(ctx, rid="R8.6")
